@@ -157,6 +157,27 @@ impl Append for FailingCap {
     fn flush(&self) {}
 }
 
+/// An appender whose destructor panics (once): the configuration it belongs to is dropped inside
+/// `Handle::set_config`, which then unwinds - after which facade and configuration must still agree.
+#[derive(Debug)]
+pub struct DropBomb;
+pub const BOMB: &str = "BOMB";
+
+impl Append for DropBomb {
+    fn append(&self, _: &Record) -> anyhow::Result<()> {
+        Ok(())
+    }
+    fn flush(&self) {}
+}
+
+impl Drop for DropBomb {
+    fn drop(&mut self) {
+        if !std::thread::panicking() {
+            panic!("l4v: scripted panic in an appender's destructor");
+        }
+    }
+}
+
 pub fn new_sink() -> Sink {
     Arc::new(Mutex::new(vec![]))
 }
@@ -186,26 +207,59 @@ pub fn build_config_failing(
         r.shuffle(&mut apps);
         r.shuffle(&mut logs);
     }
+    // builder entry points: one by one (0), in bulk (1), first item singly and the rest in bulk (2)
+    let style = match rng.as_deref_mut() {
+        Some(r) => r.below(3),
+        None => 0,
+    };
     let mut b = Config::builder();
+    let mut built_apps: Vec<Appender> = vec![];
     for a in apps {
-        let boxed: Box<dyn Append> = if failing.contains(a) {
+        let boxed: Box<dyn Append> = if a == BOMB {
+            Box::new(DropBomb)
+        } else if failing.contains(a) {
             Box::new(FailingCap { name: format!("{}{}", tag, a), sink: sink.clone() })
         } else {
             Box::new(Cap { name: format!("{}{}", tag, a), sink: sink.clone() })
         };
-        b = b.appender(Appender::builder().build(a.clone(), boxed));
+        built_apps.push(Appender::builder().build(a.clone(), boxed));
     }
+    fn split<T>(mut v: Vec<T>, style: u64) -> (Vec<T>, Vec<T>) {
+        match style {
+            0 => (v, vec![]),
+            1 => (vec![], v),
+            _ => {
+                let rest = if v.is_empty() { vec![] } else { v.split_off(1) };
+                (v, rest)
+            }
+        }
+    }
+    let (one, bulk) = split(built_apps, style);
+    for a in one {
+        b = b.appender(a);
+    }
+    b = b.appenders(bulk);
+    let mut built_logs: Vec<Logger> = vec![];
     for l in logs {
         let mut lb = Logger::builder().additive(l.additive);
-        for a in &l.appenders {
-            lb = lb.appender(a.clone());
+        let (one, bulk) = split(l.appenders.clone(), style);
+        for a in one {
+            lb = lb.appender(a);
         }
-        b = b.logger(lb.build(l.name.clone(), l.level));
+        lb = lb.appenders(bulk);
+        built_logs.push(lb.build(l.name.clone(), l.level));
     }
+    let (one, bulk) = split(built_logs, style);
+    for l in one {
+        b = b.logger(l);
+    }
+    b = b.loggers(bulk);
     let mut rb = Root::builder();
-    for a in &spec.root_appenders {
-        rb = rb.appender(a.clone());
+    let (one, bulk) = split(spec.root_appenders.clone(), style);
+    for a in one {
+        rb = rb.appender(a);
     }
+    rb = rb.appenders(bulk);
     b.build(rb.build(spec.root_level))
         .map_err(|e| format!("{:?}", e))
 }
